@@ -13,7 +13,9 @@ mod script;
 mod tree;
 mod util;
 
+mod c01;
 mod c02;
+mod c03;
 mod c06;
 mod c16;
 mod c17;
@@ -72,7 +74,9 @@ fn main() {
     let mut report = Report::new(&prop.to_uppercase(), &args.tier, args.seed);
     util::install_quiet_panic_hook();
     match prop.as_str() {
+        "c01" => c01::run(&args, &mut report),
         "c02" => c02::run(&args, &mut report),
+        "c03" => c03::run(&args, &mut report),
         "c06" => c06::run(&args, &mut report),
         "c16" => c16::run(&args, &mut report),
         "c17" => c17::run(&args, &mut report),
